@@ -16,7 +16,22 @@ def unhexL : List Char → Bytes
   | a :: b :: rest => (hexNib a * 16 + hexNib b) :: unhexL rest
   | _ => []
 
-def unhex (s : String) : Bytes := unhexL s.toList
+def nibU (b : UInt8) : Nat :=
+  let n := b.toNat
+  if 48 ≤ n ∧ n ≤ 57 then n - 48
+  else if 97 ≤ n ∧ n ≤ 102 then n - 87
+  else if 65 ≤ n ∧ n ≤ 70 then n - 55
+  else 0
+
+/-- hex → bytes, right to left over the UTF-8 bytes of the string (no intermediate char list). -/
+def unhexBA (a : ByteArray) : Nat → Bytes → Bytes
+  | 0, acc => acc
+  | 1, acc => acc
+  | n + 2, acc => unhexBA a n ((nibU (a.get! n) * 16 + nibU (a.get! (n + 1))) :: acc)
+
+def unhex (s : String) : Bytes :=
+  let a := s.toUTF8
+  unhexBA a (a.size - a.size % 2) []
 
 def nibChar (n : Nat) : Char := Char.ofNat (if n < 10 then n + 48 else n + 87)
 
@@ -32,7 +47,7 @@ def splitC (c : Char) : List Char → List (List Char)
       | [] => [[x]]
       | f :: fs => (x :: f) :: fs
 
-def splitS (c : Char) (s : String) : List String := (splitC c s.toList).map String.ofList
+def splitS (c : Char) (s : String) : List String := s.splitOn (String.singleton c)
 
 /-- like `splitS` but the empty string gives the empty list. -/
 def listS (c : Char) (s : String) : List String := if s.isEmpty then [] else splitS c s
@@ -53,10 +68,10 @@ def optNat (s : String) : Option Nat := if s == "none" then none else toNat? s
 abbrev KV := List (String × String)
 
 def kvOf (tok : String) : String × String :=
-  match splitC '=' tok.toList with
+  match tok.splitOn "=" with
   | [] => ("", "")
-  | [k] => (String.ofList k, "")
-  | k :: v :: _ => (String.ofList k, String.ofList v)
+  | [k] => (k, "")
+  | k :: v :: _ => (k, v)
 
 def fields (line : String) : KV := (splitS ' ' line).map kvOf
 
